@@ -121,6 +121,8 @@ def gen(rng, tier):
         yield {"k": "mergerep", "a": tgt, "optsA": vo, "steps": [{"b": M(mrng.shuffle(srcs)), "opts": vo + pol}], "ropts": vo, "repeat": rep,
                "_tag": "order/merge-refs", "_nt": True, "_sig": "mergerefs|%s|%d|%d" % (pol[0]["o"] if pol else "", len(tgt["m"]), len(srcs))}
     for c in c05.gen(rng.fork("c05"), "quick"):
+        if c.get("k") != "norm":
+            continue
         if rng.chance(0.4 if tier == "quick" else 1.0):
             c["repeat"] = rep
             c["_tag"] = "order/" + c["_tag"]
